@@ -422,7 +422,7 @@ func writeUndecidedReplay(prop, name, fn, why string) string {
 // copies of the repository HEAD (self-test of the machinery; reported in the evidence, does not decide the property).
 func thoroughExtras(prop string, known KnownFile, res *Summary) {
 	res.Extras = map[string]interface{}{}
-	var demos []map[string]interface{}
+	demos := []map[string]interface{}{}
 	for _, d := range known.FixedDemos {
 		mine := false
 		for _, p := range d.Properties {
